@@ -1124,7 +1124,9 @@ class SMTPClient(basic.LineReceiver, policies.TimeoutMixin):
         return chunk
 
     def finishedFileTransfer(self, lastsent):
-        if lastsent != b"\n":
+        # lastsent is empty when the message was empty: the terminating
+        # period then directly follows the CRLF which ended the DATA command.
+        if lastsent and lastsent != b"\n":
             line = b"\r\n."
         else:
             line = b"."
